@@ -208,6 +208,38 @@ async fn prog_spawner(name: String, l: Log, p: Value) -> turmoil::Result {
     Ok(())
 }
 
+/// Several sources become ready in the same poll; an unbiased `select!` picks
+/// the winner with the runtime's (seeded) rng.
+async fn prog_racer(name: String, l: Log, p: Value) -> turmoil::Result {
+    let k = p["lanes"].as_u64().unwrap_or(3).max(2);
+    let rounds = p["rounds"].as_u64().unwrap_or(12);
+    let (t1, mut r1) = tokio::sync::mpsc::unbounded_channel::<u64>();
+    let (t2, mut r2) = tokio::sync::mpsc::unbounded_channel::<u64>();
+    let (t3, mut r3) = tokio::sync::mpsc::unbounded_channel::<u64>();
+    for lane in 0..k.min(3) {
+        let tx = [t1.clone(), t2.clone(), t3.clone()][lane as usize].clone();
+        tokio::task::spawn_local(async move {
+            for i in 0..rounds {
+                // all lanes fire at the same virtual instants
+                tokio::time::sleep(Duration::from_millis(2)).await;
+                let _ = tx.send(i);
+            }
+        });
+    }
+    drop((t1, t2, t3));
+    let mut open = 3;
+    while open > 0 {
+        tokio::select! {
+            v = r1.recv() => match v { Some(i) => log(&l, &name, format!("lane a {}", i)), None => { open -= 1; r1.close(); tokio::time::sleep(Duration::from_millis(1)).await; } },
+            v = r2.recv() => match v { Some(i) => log(&l, &name, format!("lane b {}", i)), None => { open -= 1; tokio::time::sleep(Duration::from_millis(1)).await; } },
+            v = r3.recv() => match v { Some(i) => log(&l, &name, format!("lane c {}", i)), None => { open -= 1; tokio::time::sleep(Duration::from_millis(1)).await; } },
+        }
+        if open < 3 { break; }
+    }
+    futures_util::future::pending::<()>().await;
+    Ok(())
+}
+
 async fn prog_fs(name: String, l: Log, p: Value) -> turmoil::Result {
     use std::os::unix::fs::FileExt;
     use turmoil::fs::shim::std::fs::{create_dir_all, metadata, read_dir, remove_file, rename, OpenOptions};
@@ -391,6 +423,7 @@ fn one_run(case: &Value, wall_sleep_us: u64) -> (Vec<String>, String) {
                     "tcp_server" => prog_tcp_server(name, l, v6).await,
                     "tcp_client" => prog_tcp_client(name, l, p).await,
                     "spawner" => prog_spawner(name, l, p).await,
+                    "racer" => prog_racer(name, l, p).await,
                     "fs" => prog_fs(name, l, p).await,
                     "uring" => prog_uring(name, l, p).await,
                     _ => panic!("unknown kind"),
@@ -400,6 +433,11 @@ fn one_run(case: &Value, wall_sleep_us: u64) -> (Vec<String>, String) {
     }
     let nsteps = case["nsteps"].as_u64().unwrap();
     let mut result = String::from("ok");
+    if wall_sleep_us > 0 {
+        // perturbed twin: real time runs ahead of virtual time for the whole run
+        let lead = (nsteps * cfg["tick_us"].as_u64().unwrap()).min(case["wall_lead_cap_us"].as_u64().unwrap_or(300_000));
+        std::thread::sleep(Duration::from_micros(lead));
+    }
     for k in 0..nsteps {
         if let Some(acts) = case["ctl"].get(k.to_string()).and_then(|a| a.as_array()) {
             for a in acts {
@@ -415,6 +453,18 @@ fn one_run(case: &Value, wall_sleep_us: u64) -> (Vec<String>, String) {
                     ("repair_oneway", Some(y)) => sim.repair_oneway(x, y),
                     ("hold", Some(y)) => sim.hold(x, y),
                     ("release", Some(y)) => sim.release(x, y),
+                    ("deliver_all", Some(_)) => sim.links(|links| {
+                        for link in links {
+                            link.deliver_all();
+                        }
+                    }),
+                    ("deliver_first", Some(_)) => sim.links(|links| {
+                        for link in links {
+                            if let Some(sent) = link.into_iter().next() {
+                                sent.deliver();
+                            }
+                        }
+                    }),
                     _ => panic!("bad ctl action"),
                 }
                 plog.borrow_mut().push(format!("ctl step {} {}", k, a));
